@@ -2,7 +2,7 @@
    kind = property*100 + sub-model.  [run] = what the model says the implementation must
    output on this input; [mon] = the property's monitor applied to the implementation's own
    observed output. *)
-From RainV Require Import Lib Tier Geometry SectionIO Meta Paths Wire.
+From RainV Require Import Lib Tier Geometry SectionIO Meta Paths Wire Stree AddrList.
 
 Definition run (kind : Z) (inp : list Z) : list Z :=
   match kind with
@@ -17,7 +17,12 @@ Definition run (kind : Z) (inp : list Z) : list Z :=
   | 704 => run_str_funcs inp
   | 1101 => run_writer inp
   | 1102 => run_reader inp
+  | 1103 => run_reader inp
+  | 1104 => run_roundtrip inp
   | 1601 => run_tier true inp
+  | 1801 => run_blocklist inp
+  | 1802 => run_stree inp
+  | 1803 => run_addrlist inp
   | _ => [-999]
   end.
 
@@ -34,7 +39,12 @@ Definition mon (kind : Z) (inp obs : list Z) : bool :=
   | 704 => list_eqb_Z (run_str_funcs inp) obs
   | 1101 => mon_writer inp obs
   | 1102 => mon_reader inp obs
+  | 1103 => list_eqb_Z (run_reader inp) obs
+  | 1104 => mon_roundtrip inp obs
   | 1601 => mon_tier inp obs
+  | 1801 => mon_blocklist inp obs
+  | 1802 => mon_stree inp obs
+  | 1803 => mon_addrlist inp obs
   | _ => false
   end.
 
